@@ -145,6 +145,9 @@ type specCfg struct {
 	fixedClock      int64 // >0: cache.Now frozen there; 0: ticking clock
 	oracles         map[string]bool
 	twin            bool // this world is a differential twin: no nested twins, no oracles
+	// non-default cache options
+	serverName   string   // cache.WithServerName
+	excludedMeta []string // cache.WithExcludedMeta
 }
 
 type repLeaf struct {
@@ -207,6 +210,16 @@ func newWorld(cfg *specCfg) *world {
 	}
 	if !cfg.eventDriven {
 		opts = append(opts, cache.DisableEventDrivenEmulation())
+	}
+	// WithServerName registers a metadata entry in package-level maps of package
+	// metadata: every world starts from the unregistered state, so that worlds
+	// with and without the option can follow each other in one process
+	metadata.UnregisterServerNameMetadata()
+	if cfg.serverName != "" {
+		opts = append(opts, cache.WithServerName(cfg.serverName))
+	}
+	if len(cfg.excludedMeta) > 0 {
+		opts = append(opts, cache.WithExcludedMeta(cfg.excludedMeta))
 	}
 	w.c = cache.New(cfg.targets, opts...)
 	w.c.SetClient(w.onFeed)
@@ -378,6 +391,19 @@ func (w *world) metaSnap(target string) string {
 		fmt.Fprintf(&b, "%s=%v/%v;", k, v, err)
 	}
 	for _, k := range metaStrs {
+		v, err := md.GetStr(k)
+		fmt.Fprintf(&b, "%s=%q/%v;", k, v, err)
+	}
+	// every further string entry the registry knows (the server name, when the
+	// cache was built with one): part of the target's metadata like the others
+	var extra []string
+	for k := range metadata.TargetStrValues {
+		if k != metadata.ConnectedAddr && k != metadata.ConnectError {
+			extra = append(extra, k)
+		}
+	}
+	sort.Strings(extra)
+	for _, k := range extra {
 		v, err := md.GetStr(k)
 		fmt.Fprintf(&b, "%s=%q/%v;", k, v, err)
 	}
@@ -974,7 +1000,17 @@ func (w *world) checkReset(o op) []seqmc.Violation {
 // deliberately excluded, see DESIGN.md C14).
 func (w *world) metaLeaves(target string) string {
 	var out []string
+	// entries the cache was told not to export (WithExcludedMeta) are not
+	// regenerated by a refresh or a Reset by design: their leaves are what the
+	// last explicit Sync / Connect wrote and are not judged here
+	skip := map[string]bool{}
+	for _, name := range w.cfg.excludedMeta {
+		skip[strings.Join(metadata.Path(name), "/")] = true
+	}
 	w.c.Query(target, []string{metadata.Root}, func(p []string, _ *ctree.Leaf, v interface{}) error {
+		if skip[strings.Join(p, "/")] {
+			return nil
+		}
 		n := v.(*pb.Notification)
 		switch x := n.Update[0].Val.Value.(type) {
 		case *pb.TypedValue_BoolVal:
